@@ -81,3 +81,7 @@ package xsub
 //@   ensures !wasClosed ==> isnil(result)
 //@
 // ---- end generated AddPipe contracts ----
+//@
+//@ func (*socket).SetOption
+//@   ensures (name == protocol.OptionReadQLen) && isnil(result) ==> evcount("closed") == 1
+//@   ensures !isnil(result) ==> evcount("closed") == 0
